@@ -106,8 +106,9 @@ class Pool:
         self.texts, self.kinds, self.families = [], [], []
 
         def ok(t):
+            # valid = the generated ANTLR parser counts no syntax error (independent of pymoca's listener / _parse)
             try:
-                return t not in self.texts and parser._parse(t) is not None
+                return t not in self.texts and a01.syntax_errors(t) == 0 and parser._parse(t) is not None
             except Exception:
                 return False
 
@@ -153,14 +154,18 @@ class Pool:
         tries = 0
         while len(self.texts) < self.nvalid + nbroken and tries < 50:
             tries += 1
-            b = a01.break_text(rng, self.texts[rng.randrange(nbase)])
+            how = a01.BREAKS[(len(self.texts) + tries) % len(a01.BREAKS)] if tries % 2 else rng.choice(a01.BREAKS)
+            b = a01.break_text(rng, self.texts[rng.randrange(nbase)], how)
             try:
-                if parser._parse(b) is not None or b in self.texts:
+                # broken BY CONSTRUCTION and confirmed by the generated parser's own error count — not by asking the
+                # code under test whether it returns None
+                if b in self.texts or a01.syntax_errors(b) == 0:
                     continue
+                parser._parse(b)      # (must not raise; what it returns is the oracle's business)
             except Exception:
                 continue
             self.texts.append(b)
-            self.kinds.append("broken")
+            self.kinds.append("broken:" + how)
         self.finish()
 
     @classmethod
@@ -179,7 +184,10 @@ class Pool:
         if len(set(self.hash)) != len(self.hash):
             raise HarnessError("text pool has duplicate hashes")
         self.by_hash = {h: i for i, h in enumerate(self.hash)}
-        self.fresh_tree = [parser._parse(t) for t in self.texts]
+        # reference: None exactly for the texts with a syntax error (generated parser's count), else the canonical
+        # form of the uncached parse
+        self.nerr = [a01.syntax_errors(t) for t in self.texts]
+        self.fresh_tree = [None if n else parser._parse(t) for n, t in zip(self.nerr, self.texts)]
         self.fresh_key = [a01.canon_key(t) for t in self.fresh_tree]
         self.tree_id = {}
         for k in self.fresh_key:
@@ -424,6 +432,8 @@ class Real:
                         cur = int.from_bytes(f.read(4), "big")
                         f.seek(36)
                         f.write((cur + 7).to_bytes(4, "big"))   # freelist page count no longer matches the list
+            elif how == "indexswap":
+                self.index_swap()
             elif how == "header":
                 if self.path.exists() and self.path.stat().st_size >= 100:
                     with open(self.path, "r+b") as f:
@@ -442,6 +452,51 @@ class Real:
         else:
             raise HarnessError("unknown op %r" % (op,))
 
+    def index_swap(self):
+        """Every page well-formed, right layout, but the primary-key index of `models` no longer agrees with the
+        table: the key of entry i leads to a row that holds the (valid) tree of another text.  `PRAGMA
+        integrity_check` reports it (rows, no exception); a structural check alone does not."""
+        snap = self.snapshot(raw=True)
+        if snap.get("file") != "db":
+            return
+        rows = []
+        if snap["models"] and snap["models"]["layout"] == "ok":
+            conn = sqlite3.connect(self.path)
+            rows = conn.execute("SELECT txt_hash, pymoca_version, data, last_hit FROM models ORDER BY rowid").fetchall()
+            meta = conn.execute("SELECT key, value FROM metadata").fetchall() if snap["meta"] not in (None, "alien") else []
+            conn.close()
+        if not rows:
+            # nothing to cross: an entry of the first valid text, as parse() would have written it
+            x = self.pool.valid_ix[0]
+            rows = [(self.pool.hash[x], ver_str(self.ver), pickle.dumps(self.pool.fresh_tree[x]), self.now_us())]
+            meta = []
+        other = []
+        for h, v, data, lh in rows:
+            x = self.pool.by_hash.get(h, self.pool.valid_ix[0])
+            j = self.pool.valid_ix[(self.pool.valid_ix.index(x) + 1) % len(self.pool.valid_ix)] if x in self.pool.valid_ix \
+                else self.pool.valid_ix[0]
+            other.append((h, v, pickle.dumps(self.pool.fresh_tree[j]), lh))
+        ddl = "CREATE TABLE %s (txt_hash TEXT, pymoca_version TEXT, data BLOB, last_hit TIMESTAMP INTEGER, PRIMARY KEY (txt_hash, pymoca_version))"
+        if self.path.exists():
+            self.path.unlink()
+        conn = sqlite3.connect(self.path, isolation_level=None)
+        conn.execute(ddl % "models")
+        conn.execute(ddl % "models_old")
+        conn.execute("CREATE TABLE metadata (key TEXT, value TEXT, PRIMARY KEY (key))")
+        conn.executemany("INSERT INTO models VALUES (?, ?, ?, ?)", rows)
+        # same keys and rowids, but the data of *another* text, plus one row the index does not know
+        conn.executemany("INSERT INTO models_old VALUES (?, ?, ?, ?)", other)
+        conn.execute("INSERT INTO models_old VALUES (?, ?, ?, ?)", ("0" * 64, "none", b"", 0))
+        conn.executemany("INSERT INTO metadata VALUES (?, ?)", meta)
+        roots = dict(conn.execute("SELECT name, rootpage FROM sqlite_master WHERE type='table'"))
+        conn.execute("PRAGMA writable_schema=ON")
+        conn.execute("UPDATE sqlite_master SET rootpage=? WHERE name='models'", (roots["models_old"],))
+        conn.execute("UPDATE sqlite_master SET rootpage=? WHERE name='models_old'", (roots["models"],))
+        conn.execute("PRAGMA writable_schema=OFF")
+        conn.close()
+        if self.snapshot().get("file") != "garbage":
+            raise HarnessError("index_swap did not produce a database that fails integrity_check")
+
     def parse(self, op):
         _, x, days, upd, bypass = op
         try:
@@ -457,11 +512,19 @@ class Real:
         from pymoca import ast
         if not isinstance(t, ast.Tree):
             return {"value": 999998}, "returned a %s" % type(t).__name__
-        return {"value": self.pool.tid(a01.canon_key(t))}, None
+        key = a01.canon_key(t)
+        # what pymoca's own callers do with the tree they get (tree.extend, flattening): edit it in place.  Every
+        # later call must still return a tree equal to a fresh parse, i.e. results must not share state.
+        t.classes["__verif_caller_edit__"] = ast.Class(name="__verif_caller_edit__")
+        for c in list(t.classes.values())[:1]:
+            c.symbols.clear()
+        return {"value": self.pool.tid(key)}, None
 
 
 def model_op(op):
     """Case-level op -> driver-level op (blob names become blob kinds)."""
+    if op[0] == "cfile" and op[1] == "indexswap":
+        return ["cfile", "freelist"]      # another file that opens, reads, and fails integrity_check without raising
     if op[0] == "clayout" and str(op[2]).startswith("typed:"):
         return ["clayout", op[1], "alien"]     # an unexpected layout; exact as long as a (re)initialisation follows
     if op[0] == "centry":
@@ -510,7 +573,7 @@ class Tracker:
             elif self.file == "noinsert" and self.tolerant:
                 self.init = False      # (on a miss; a hit leaves it — irrelevant for what this is used for)
         elif k == "cfile":
-            self.file = "garbage" if op[1] in ("text", "header", "freelist") else "noquery"
+            self.file = "garbage" if op[1] in ("text", "header", "freelist", "indexswap") else "noquery"
         elif k == "clayout" and op[1] == "models" and self.file != "garbage":
             self.file = {"nopk": "query", "extracol": "noinsert"}.get(op[2], "noquery")
 
@@ -661,11 +724,11 @@ def gen_history(rng, pool, maxlen, guarded, f3=False):
                              else ["drop", "alien", "delcreated", "delprune", "typed:meta_value_int"])
             ops.append(["clayout", tbl, how])
         elif r < 0.95:
-            ops.append(["cfile", rng.choice(["delete", "empty", "text", "header", "freelist"])])
+            ops.append(["cfile", rng.choice(["delete", "empty", "text", "header", "freelist", "indexswap", "indexswap"])])
         else:
             ops.append(["foreign", rng.choice(hot), rng.choice([100, 101]), rng.choice([0, 2, 40])])
         tr.feed(ops[-1])
-        if (guarded and tr.unsynced()) or ((ops[-1][:2] == ["cfile", "freelist"] or typed(ops[-1])) and tr.init) \
+        if (guarded and tr.unsynced()) or ((ops[-1][:2] in (["cfile", "freelist"], ["cfile", "indexswap"]) or typed(ops[-1])) and tr.init) \
                 or (not f3 and tr.write_damaged()):
             # (write damage while initialised = open finding C01-F3: only in its own stream)
             # (the model treats a file that fails integrity_check as unreadable; for `freelist` that is exact only
